@@ -70,6 +70,12 @@ func (r *responseStorer) StoreResponse(
 	// All Vary field lines count (RFC 9110 §5.3): a field nominated on a second
 	// line selects the response just as one on the first line.
 	vary := strings.Join(resp.Header.Values("Vary"), ", ")
+	if varyHasWildcard(vary) {
+		// A response that varies on "*" matches no request, whatever else its
+		// Vary value names and however it is spelled: it is one and the same
+		// variant, recorded (and replaced) as such.
+		vary = "*"
+	}
 	varyResolved := maps.Collect(
 		r.vhn.NormalizeVaryHeader(vary, req.Header),
 	)
